@@ -223,7 +223,7 @@ def gen_case(seed, tier, index=0):
         cfgs = [f["path"] for f in files if f["path"].endswith(("REUSE.toml", "dep5"))]
         faults, muts, kinds = [], [], []
         for _ in range(rng.randint(1, 3)):
-            k = rng.wpick([(5, "file"), (3 if cfgs else 0, "config"), (2, "dir"), (1 if glob_kind == "dep5" else 0, "dep5-worker"), (1, "licenses")])
+            k = rng.wpick([(5, "file"), (3 if cfgs else 0, "config"), (2, "dir"), (1 if glob_kind == "dep5" else 0, "dep5-worker"), (1, "licenses"), (2, "stat")])
             if k == "file":
                 t = rng.pick(covered)
                 kind = rng.pick(["EACCES", "ENOENT", "EIO", "EISDIR", "vanish", "to_dir", "ELOOP", "EMFILE"])
@@ -256,6 +256,12 @@ def gen_case(seed, tier, index=0):
                 else:
                     faults.append({"op": "scandir", "path": d, "errno": kind, "nth": rng.pick([None, 1, 2])})
                 kinds.append("dir:" + kind)
+            elif k == "stat":
+                # entries of a directory that can be listed but not searched (mode r--): stat() is denied
+                d = rng.pick(["src", "src/core", "docs"])
+                for t in [c for c in covered if posixpath.dirname(c) == d]:
+                    faults.append({"op": "stat", "path": t, "errno": "EACCES", "target": t})
+                kinds.append("stat:EACCES")
             elif k == "licenses":
                 faults.append({"op": "scandir", "path": "LICENSES", "errno": "EACCES"})
                 kinds.append("dir:LICENSES-EACCES")
